@@ -517,6 +517,11 @@ def run(ctx):
     gc.apply_records(ctx, {'R01.a': ra, 'R01.b': rb, 'R01.d': rd}, res)
     rc = ctx.rule('R01.c', DESC_C, 10)
     check_R01c(ctx, _Keyed(rc))
+    # the startup enumeration flushes its per-VP ring array through __parsec_schedule_vp again and again: each slot that was
+    # scheduled or parked as next_task must be cleared, or the task is handed out twice (rule set of C08/R08.e, re-run here)
+    re1 = ctx.rule('R01.e', '__parsec_schedule / __parsec_schedule_vp: each ring slot is scheduled once and cleared (R08.e re-run: the startup enumeration re-uses its ring array)', floor=4)
+    from rules import C08
+    C08.check_schedule_vp(ctx, re1, ctx.extract('parsec/scheduling.c'))
     gc.raise_pending(ctx)
 
 
